@@ -75,6 +75,11 @@ func (e *Engine) stableCensus(tp *TargetPkg, sf *StableField) ([]string, error) 
 	if err != nil {
 		return nil, err
 	}
+	if len(sf.Writers) > 0 {
+		// a field with writers could change inside an unmodelled callee that reaches a writer:
+		// the census alone does not carry it across calls
+		return nil, fmt.Errorf("stable %s.%s: the 'writers' option is not supported (unsound across calls that may reach a writer)", sf.Type, sf.Field)
+	}
 	key := typeKey(T)
 	isWriter := func(fn *ssa.Function) bool {
 		for f := fn; f != nil; f = f.Parent() {
